@@ -153,3 +153,146 @@ package bkl
 //@     invariant (= (app (ls ret) (mapMatch rest m val)) (mapMatch (ls l) m val))
 //@     invariant (= (mapMatchErr rest m val) (mapMatchErr (ls l) m val))
 //@     invariant (= (or found (anyMatchL rest m)) (anyMatchL (ls l) m))
+
+// ------------------------------------------------------------------------------------------------- validate.go
+
+//@ func validate(obj) (err)
+//@   ensures (= (isErr err) (not (noMarker obj)))                                  [C07] [C17]
+//@   ensures (=> (isErr err) (or (= err ErrRequiredField) (= err ErrInvalidDirective)))
+//@   decreases (rank obj) 1
+//
+//@ func validateMap(obj) (err)
+//@   requires ((_ is VMap) obj)
+//@   ensures (= (isErr err) (not (noMarker obj)))                                  [C07]
+//@   ensures (=> (isErr err) (or (= err ErrRequiredField) (= err ErrInvalidDirective)))
+//@   decreases (rank obj) 0
+//@   loop 1
+//@     invariant (forall ((j String)) (=> (select visited j) (and (not (marker j)) (noMarker (select (mc obj) j)))))
+//
+//@ func validateList(obj) (err)
+//@   ensures (= (isErr err) (not (noMarker obj)))                                  [C07]
+//@   ensures (=> (isErr err) (or (= err ErrRequiredField) (= err ErrInvalidDirective)))
+//@   decreases (rank obj) 0
+//@   loop 1
+//@     invariant (= (noMarkerL rest) (noMarkerL (ls obj)))
+//
+//@ func validateString(obj) (err)
+//@   ensures (= (isErr err) (marker obj))                                          [C07] [C17]
+//@   ensures (=> (= obj "$required") (= err ErrRequiredField))                     [C07] [C17]
+//@   ensures (=> (isErr err) (or (= err ErrRequiredField) (= err ErrInvalidDirective)))
+
+// ------------------------------------------------------------------------------------------------- util.go (iteration helpers)
+
+//@ func filterMap(m, filter) (res, err)
+//@   loop 2
+//@     invariant ((_ is VMap) ret)
+//@     invariant (forall ((j String)) (= (select (mc ret) j) (ite (select visited j) (select (mapOf m2) j) (select (mc ret@loop) j))))
+
+// ------------------------------------------------------------------------------------------------- output.go
+
+//@ func findOutputs(obj) (res, outs, err)
+//@   ensures (= (isErr err) (outBad obj true))
+//@   ensures (=> (not (isErr err)) (= res (stripF obj)))                           [C11] [C06]
+//@   ensures (=> (not (isErr err)) (= outs (VList (selF obj))))                    [C11] [C06]
+//@   decreases (rank obj) 1
+//
+//@ func findOutputsMap(obj) (res, outs, err)
+//@   uses appNil, appAssoc
+//@   requires ((_ is VMap) obj)
+//@   ensures (= (isErr err) (outBad obj true))
+//@   ensures (=> (not (isErr err)) (= res (stripF obj)))                           [C11]
+//@   ensures (=> (not (isErr err)) (= outs (VList (selF obj))))                    [C11]
+//@   decreases (rank obj) 0
+//@   loop 1
+//@     invariant ((_ is VMap) ret) ((_ is VList) outs)
+//@     invariant (forall ((j String)) (=> (select visited j) (= (select (mc ret) j) (stripF (select (mc obj) j)))))
+//@     invariant (forall ((j String)) (=> (not (select visited j)) (= (select (mc ret) j) VAbsent)))
+//@     invariant (= (app (ls outs) (selK (mc obj) rest)) (app (ls outs@loop) (selK (mc obj) (sortedKeys (mc obj)))))
+//@     invariant (= (outBadK (mc obj) rest true) (outBadK (mc obj) (sortedKeys (mc obj)) true))
+//
+//@ func findOutputsList(obj) (res, outs, err)
+//@   uses appNil, snocApp, appAssoc
+//@   ensures (= (isErr err) (outBad obj true))
+//@   ensures (=> (not (isErr err)) (= res (stripF obj)))                           [C11]
+//@   ensures (=> (not (isErr err)) (= outs (VList (selF obj))))                    [C11]
+//@   decreases (rank obj) 0
+//@   loop 1
+//@     invariant ((_ is VList) ret) ((_ is VList) outs)
+//@     invariant (= (app (ls ret) (stripL rest)) (stripL (ls obj)))
+//@     invariant (= (app (ls outs) (selL rest)) (selL (ls obj)))
+//@     invariant (= (outBadL rest true) (outBadL (ls obj) true))
+//
+//@ func filterOutput(obj) (res, err)
+//@   ensures (= (isErr err) (outBad obj false))
+//@   ensures (=> (not (isErr err)) (= res (hideF obj)))                            [C11] [C06]
+//@   decreases (rank obj) 1
+//
+//@ func filterOutputMap(obj) (res, err)
+//@   requires ((_ is VMap) obj)
+//@   ensures (= (isErr err) (outBad obj false))
+//@   ensures (=> (not (isErr err)) (= res (hideF obj)))                            [C11]
+//@   decreases (rank obj) 0
+//@   call filterMap#1
+//@     invariant ((_ is VMap) ret)
+//@     invariant (forall ((j String)) (=> (select visited j) (= (select (mc ret) j)
+//@                  (ite (= (hideF (select (mc m) j)) VNil) VAbsent (hideF (select (mc m) j))))))
+//@     invariant (forall ((j String)) (=> (not (select visited j)) (= (select (mc ret) j) VAbsent)))
+//@     invariant (= (outBadK (mc m) rest false) (outBadK (mc m) (sortedKeys (mc m)) false))
+//
+//@ func filterOutputList(obj) (res, err)
+//@   uses appNil, snocApp, noMarkerNoExtra
+//@   ensures (= (isErr err) (outBad obj false))
+//@   ensures (=> (not (isErr err)) (= res (hideF obj)))                            [C11]
+//@   decreases (rank obj) 0
+//@   call filterList#1
+//@     invariant ((_ is VList) ret)
+//@     invariant (= (app (ls ret) (hideL rest)) (hideL (ls l)))
+//@     invariant (= (outBadL rest false) (outBadL (ls l) false))
+
+// ------------------------------------------------------------------------------------------------- finalize.go
+
+//@ func finalizeString(obj) (res)
+//@   ensures (= res (unesc obj))                                                   [C06]
+//
+//@ func finalizeOutput(obj) (res)
+//@   ensures (= res (finF obj))                                                    [C06] [C09]
+//@   decreases (rank obj) 1
+//
+//@ func finalizeList(obj) (res)
+//@   uses lsetLen, lrepeatLen, ltakeSet, ltakeAll, finLsnoc
+//@   ensures (= res (finF obj))                                                    [C06]
+//@   decreases (rank obj) 0
+//@   loop 1
+//@     invariant ((_ is VList) newList)
+//@     invariant (= (llen (ls newList)) (llen (ls obj)))
+//@     invariant (= (ltake (ls newList) idx) (finL done))
+//
+//@ func finalizeMap(obj) (res)
+//@   requires ((_ is VMap) obj)
+//@   requires (keysInj (mc obj))                                                   [C09]
+//@   ensures (= res (finF obj))                                                    [C06] [C09]
+//@   decreases (rank obj) 0
+//@   loop 1
+//@     invariant ((_ is VMap) newObj)
+//@     invariant (forall ((j String)) (=> (select visited j) (= (select (mc newObj) (unesc j)) (finF (select (mc obj) j)))))
+//@     invariant (forall ((k2 String)) (=> (not (= (select (mc newObj) k2) VAbsent))
+//@                  (exists ((j String)) (and (select visited j) (= (unesc j) k2)))))
+
+// ------------------------------------------------------------------------------------------------- parser.go (output side)
+
+//@ func Parser.outputDocument(p, doc) (res, err)
+//@   uses appNil, snocApp, appAssoc
+//@   ensures (=> (not (isErr err))
+//@              (exists ((h (Array Int Val)) (ds RLst))
+//@                 (and (not (candsBad h ds)) (not (emitErr (candsL h ds))) (= res (VList (emitF (candsL h ds)))))))   [C11] [C07]
+//@   loop 1
+//@     invariant ((_ is VList) outs)
+//@     invariant (= (app (ls outs) (candsL (heap Document.Data) rest)) (candsL (heap Document.Data) docs))
+//@     invariant (= (candsBad (heap Document.Data) rest) (candsBad (heap Document.Data) docs))
+//@   call filterList#1
+//@     invariant ((_ is VList) ret)
+//@     invariant (= (app (ls ret) (emitF rest)) (emitF (ls l)))
+//@     invariant (= (emitErr rest) (emitErr (ls l)))
+//@   at call finalizeOutput#1
+//@     assert (noMarker v2)                                                        [C07]
+//@     assert (= v2 (hideF v))                                                     [C11]
